@@ -235,6 +235,16 @@ def cases(rng, tier):
         for k in rng.sample(MUTS, 2):
             u = mutate(rng, u, k)
         out.append({"t": "logout", "uri": u, "kind": "combo", "state": rng.choice(STATES) if rng.random() < 0.7 else common.rnd_text(rng, 10)})
+    # the redirect_uri that is IN EFFECT: a registered one in the clear, the mutated one inside a signed request object (by value /
+    # by reference); an interactive provider, no session cookie; with prompt=none the only possible answer is an error — sent where?
+    for fl in ("oidc", "oauth2"):
+        for kind in (MUTS if tier != "quick" else rng.sample(MUTS, 6) + ["same"]):
+            base = base_uri(rng.choice(REG[WEB]))
+            u = base if kind == "same" else mutate(rng, base, kind)
+            out.append({"t": "jar_uri", "fl": fl, "via": rng.choice(["request", "request_uri"]), "uri": u, "kind": kind, "prompt_none": rng.random() < 0.7,
+                        "mode": rng.choice([None, None, "form_post", "fragment"])})
+        out.append({"t": "jar_uri", "fl": fl, "via": "request_uri", "uri": "https://attacker.example.org/landing", "kind": "other-host", "prompt_none": True, "mode": None})
+        out.append({"t": "jar_uri", "fl": fl, "via": "request", "uri": "https://attacker.example.org/landing", "kind": "other-host", "prompt_none": True, "mode": "form_post"})
     for _ in range(60 * n):
         out.append({"t": "resp", "mode": rng.choice(["query", "fragment", "form_post", None]), "rt": rng.choice(["code", "code id_token", "id_token"]),
                     "state": rng.choice(STATES) if rng.random() < 0.8 else common.rnd_text(rng, 12), "reg": rng.randrange(2),
@@ -294,7 +304,87 @@ def _logout(c):
     return {"r": "ok", "uri": c["uri"], "target": payload["redirect_uri"], "first_hop": loc.split("?")[0], "payload_state": payload.get("state")}
 
 
+_jsrv = {}
+
+
+def jar_server(fl):
+    """an INTERACTIVE provider (nobody is logged in without a session cookie), OIDC or plain OAuth2 authorization endpoint"""
+    if fl not in _jsrv:
+        from idpyoidc.server.user_authn.user import UserAuthnMethod
+
+        class LoginPage(UserAuthnMethod):
+            def __call__(self, **kwargs):
+                return "<html><body>login page</body></html>"
+
+        more = None
+        if fl == "oauth2":
+            from idpyoidc.server.oauth2.authorization import Authorization as OAuth2Authorization
+            more = {"authorization": {"path": "authorization", "class": OAuth2Authorization, "kwargs": {}}}
+        sv = opbase.make_op(more_endpoints=more, extra={"authentication": {"user": {
+            "acr": "urn:oasis:names:tc:SAML:2.0:ac:classes:InternetProtocolPassword", "class": LoginPage, "kwargs": {}}}})
+        sv.context.cdb[WEB]["redirect_uris"] = REG[WEB]
+        _jsrv[fl] = sv
+    return _jsrv[fl]
+
+
+class _Fetched:
+    def __init__(self, text):
+        self.status_code, self.status, self.text, self.headers = 200, 200, text, {"content-type": "application/jwt"}
+
+
+def _jar_uri(c):
+    from cryptojwt.jwt import JWT
+    from cryptojwt.key_jar import KeyJar
+    sv = jar_server(c["fl"])
+    ep = sv.get_endpoint("authorization")
+    kj = KeyJar()
+    kj.add_symmetric(WEB, sv.context.cdb[WEB]["client_secret"])
+    inner = dict(client_id=WEB, response_type="code", scope="openid", state="STATE", nonce="n", redirect_uri=c["uri"])
+    if c["prompt_none"]:
+        inner["prompt"] = "none"
+    if c.get("mode"):
+        inner["response_mode"] = c["mode"]
+    ro = JWT(key_jar=kj, iss=WEB, sign_alg="HS256", lifetime=300).pack(inner, aud=sv.context.issuer)
+    outer = dict(client_id=WEB, response_type="code", scope=["openid"], redirect_uri=base_uri(REG[WEB][0]), state="STATE", nonce="n")
+    if c["via"] == "request":
+        outer["request"] = ro
+    else:
+        uri = outer["request_uri"] = "https://rp.example.com/request_objects/ro.jwt"
+        sv.context.httpc = lambda method, url, **kw: _Fetched(ro if url == uri else "")
+    try:
+        pr = ep.parse_request(AuthorizationRequest(**outer).to_dict(), http_info={})
+    except Exception as e:
+        return {"r": "direct", "how": "parse:" + type(e).__name__}
+    if "error" in pr:
+        return {"r": "direct", "how": "parse-error", "redirected": "redirect_location" in pr or "return_uri" in pr}
+    eff = pr.get("redirect_uri")
+    try:
+        out = ep.process_request(pr, http_info={})
+    except Exception as e:
+        return {"r": "direct", "how": "process:" + type(e).__name__, "effective": eff}
+    target = None
+    from idpyoidc.message.oauth2 import ResponseMessage
+    if isinstance(out, ResponseMessage) and "error" in out:
+        return {"r": "direct", "how": "process-error", "effective": eff}
+    if isinstance(out, dict) and not ("function" in out or ("http_response" in out and "error" not in out)):
+        # what the web framework does with the endpoint's answer (the login_required error travels here too, as error + return_uri)
+        try:
+            resp = ep.do_response(request=pr, **out)
+            if resp.get("response_placement") != "body":
+                body = resp["response"]
+                if "<html" in body.lower():
+                    fp = _FormParser(); fp.feed(body); target = fp.action
+                else:
+                    target = body
+        except Exception as e:
+            return {"r": "direct", "how": "respond:" + type(e).__name__, "effective": eff}
+    how = "error" if isinstance(out, dict) and out.get("error") else ("login-page" if isinstance(out, dict) and "function" in out else "other")
+    return {"r": "sent" if target else "direct", "target": target, "how": how, "effective": eff}
+
+
 def impl(c):
+    if c["t"] == "jar_uri":
+        return _jar_uri(c)
     s = server()
     ep = s.get_endpoint("authorization")
     if c["t"] == "logout":
@@ -353,6 +443,12 @@ def _verify_line(uri, native, reg):
 
 def model_lines(c, obs):
     s = server()
+    if c["t"] == "jar_uri":
+        # the model is asked about the redirect_uri that is in effect: the one inside the object
+        if c["uri"] == "":
+            return []
+        l = _verify_line(c["uri"], False, REG[WEB])
+        return [l] if l else []
     if c["t"] == "logout":
         if c["uri"] == "":
             return []
@@ -394,6 +490,15 @@ def model_lines(c, obs):
 
 
 def compare(c, obs, outs):
+    if c["t"] == "jar_uri":
+        if not outs:
+            return [] if (obs["r"] == "direct" or c["uri"] == "") else [f"the decoded inner value is not parseable but something was sent: {obs}"]
+        # the matcher refuses the effective URI -> nothing is sent anywhere; it accepts -> with prompt=none the error goes to that URI
+        # one direction only: what the matcher refuses is never a target (an accepted URI may still end in a directly returned error
+        # for reasons of its own — prompt=none beside a response_mode, an error message without its required members)
+        if outs[0] != "ok" and obs["r"] == "sent":
+            return [f"request object redirect_uri ({c['via']}, {c['fl']}): model={outs[0]} but the user agent is sent to {obs['target']!r}"]
+        return []
     if c["t"] == "logout":
         if not outs:
             if c["uri"] == "":      # no post_logout_redirect_uri at all: the provider's own page, no state
@@ -476,6 +581,24 @@ def oracle(c, obs):
         if (t["scheme"], t["authority"], t["path"]) != (sent["scheme"], sent["authority"], sent["path"]) or t["fragment"] is not None or got_q != want_q:
             v.append({"cls": "post-logout-target-altered", "has_query": bool(reg[1]), "want": want_q, "got": got_q, "fragment": t["fragment"]})
         return v
+    if c["t"] == "jar_uri":
+        if obs.get("redirected"):
+            v.append({"cls": "mismatch-redirects"})
+        if obs["r"] == "sent":
+            t = obs["target"]
+            base = t.split("#")[0]
+            dec = unquote(base)
+            got = rfc_parts(dec)
+            ok = False
+            for b, q in REG[WEB]:
+                r = rfc_parts(b)
+                gq = [kv for kv in parse_qsl(got["query"] or "", keep_blank_values=True) if kv[0] not in ("error", "error_description", "state", "code", "iss", "client_id", "session_state", "scope")]
+                if got["scheme"] == r["scheme"] and got["authority"] == r["authority"] and got["path"] == r["path"] \
+                        and sorted(gq) == sorted((k, x) for k, xs in (q or {}).items() for x in xs):
+                    ok = True
+            if not ok:
+                v.append({"cls": "accepted-unregistered", "kind": c["kind"], "uri": c["uri"], "which": "redirect_uri inside a request object", "via": c["via"], "endpoint": c["fl"]})
+        return v
     if c["t"] == "uri":
         if obs["r"] == "error" and obs.get("redirected"):
             v.append({"cls": "mismatch-redirects"})
@@ -538,6 +661,8 @@ def known_key(c, v, known):
 
 
 def classify(c, obs):
+    if c["t"] == "jar_uri":
+        return f"jar_uri:{c['fl']}:{c['via']}:{obs['r']}:{obs.get('how')}"
     if c["t"] == "uri":
         return f"uri:{c['client']}:{obs['r']}"
     if c["t"] == "logout":
@@ -546,7 +671,7 @@ def classify(c, obs):
 
 
 def nontrivial(c, obs):
-    if c["t"] == "uri":
+    if c["t"] in ("uri", "jar_uri"):
         return c["kind"] != "same"
     if c["t"] == "logout" and c["kind"] != "same":
         return True
